@@ -264,8 +264,9 @@ func runC05(ctx *Ctx) {
 				r.Violate("history/derivation-wrote-into-the-subscription", cs, "an OPc appeared in the caller's subscription: "+subs.Opc.OpcValue, nil)
 			}
 			// K_AMF replaced in place, algorithm keys re-derived: for every algorithm pair
-			for alg := 0; alg < 16; alg++ {
-				newKamf := refcrypto.KDF(want.Kamf, 0x70+byte(i), []byte{byte(alg)})
+			for alg2 := 0; alg2 < 32; alg2++ {
+				alg := alg2 / 2 // every pair twice in a row: K_AMF changes while the algorithms stay
+				newKamf := refcrypto.KDF(want.Kamf, 0x70+byte(i), []byte{byte(alg2)})
 				copy(ue.Kamf, newKamf)
 				ue.CipheringAlg, ue.IntegrityAlg = uint8(alg/4), uint8(alg%4)
 				if perr := recoverErr(func() { ue.DerivateAlgKey() }); perr != nil {
@@ -284,7 +285,7 @@ func runC05(ctx *Ctx) {
 			ue.CipheringAlg, ue.IntegrityAlg = 2, 2
 		}
 		lo.Merge()
-		r.Sample("one subscription object: derive(K1,OP1 only) ; K overwritten in place ; derive(K2,OP1 only) ; ... ; K_AMF overwritten in place ; DerivateAlgKey for all 16 algorithm pairs")
+		r.Sample("one subscription object: derive(K1,OP1 only) ; K overwritten in place ; derive(K2,OP1 only) ; ... ; K_AMF overwritten in place ; DerivateAlgKey for all 16 algorithm pairs, each twice in a row with another K_AMF")
 	}
 	lh := r.Local()
 	nseq := 0
